@@ -48,9 +48,21 @@ pub fn to_hex(bytes: &[u8]) -> String {
     s
 }
 
-/// Hex, `-` (empty), or the compact run notation `~TTxN` = the N bytes `TT, TT+1, ...` (wrapping),
-/// which keeps the op lines of very large payloads short (the Lean driver parses the same form).
+/// Hex, `-` (empty), the compact run notation `~TTxN` = the N bytes `TT, TT+1, ...` (wrapping), the
+/// constant run `*TTxN` = N copies of `TT`, or several such parts joined by `+` (`fe+*41x65535+fd`),
+/// which keeps the op lines of very large payloads short (the Lean driver parses the same forms).
 pub fn from_hex(s: &str) -> Option<Vec<u8>> {
+    if !s.contains('+') {
+        return from_hex_part(s);
+    }
+    let mut out = Vec::new();
+    for part in s.split('+') {
+        out.extend_from_slice(&from_hex_part(part)?);
+    }
+    Some(out)
+}
+
+fn from_hex_part(s: &str) -> Option<Vec<u8>> {
     if s == "-" {
         return Some(Vec::new());
     }
@@ -59,6 +71,15 @@ pub fn from_hex(s: &str) -> Option<Vec<u8>> {
         let tag = u8::from_str_radix(t, 16).ok()?;
         let n: usize = n.parse().ok()?;
         return Some((0..n).map(|k| tag.wrapping_add(k as u8)).collect());
+    }
+    if let Some(rest) = s.strip_prefix('*') {
+        let (t, n) = rest.split_once('x')?;
+        if t.len() != 2 {
+            return None;
+        }
+        let tag = u8::from_str_radix(t, 16).ok()?;
+        let n: usize = n.parse().ok()?;
+        return Some(vec![tag; n]);
     }
     if s.len() % 2 != 0 {
         return None;
@@ -76,6 +97,40 @@ pub fn from_hex(s: &str) -> Option<Vec<u8>> {
 /// The compact spelling of `run_bytes(tag, n)` accepted by `from_hex`.
 pub fn run_token(tag: u8, n: usize) -> String {
     if n == 0 { "-".to_string() } else { format!("~{:02x}x{}", tag, n) }
+}
+
+/// The compact spelling of `n` copies of `byte` accepted by `from_hex`.
+pub fn const_token(byte: u8, n: usize) -> String {
+    if n == 0 { "-".to_string() } else { format!("*{:02x}x{}", byte, n) }
+}
+
+/// Compact spelling of `bytes` for an op line: runs of >= 24 equal bytes become `*TTxN` parts, the
+/// rest plain hex, joined by `+` (`from_hex` of the result gives `bytes` back).
+pub fn to_hex_compact(bytes: &[u8]) -> String {
+    if bytes.len() < 48 {
+        return to_hex(bytes);
+    }
+    let mut parts: Vec<String> = Vec::new();
+    let mut lit_start = 0usize;
+    let mut i = 0usize;
+    while i < bytes.len() {
+        let mut j = i + 1;
+        while j < bytes.len() && bytes[j] == bytes[i] {
+            j += 1;
+        }
+        if j - i >= 24 {
+            if lit_start < i {
+                parts.push(to_hex(&bytes[lit_start..i]));
+            }
+            parts.push(const_token(bytes[i], j - i));
+            lit_start = j;
+        }
+        i = j;
+    }
+    if lit_start < bytes.len() {
+        parts.push(to_hex(&bytes[lit_start..]));
+    }
+    parts.join("+")
 }
 
 pub fn nat_list(xs: &[usize]) -> String {
